@@ -175,6 +175,7 @@ structure World where
   -- Irc stub
   queue : List Str := []               -- `str(m)` of the messages `takeMsg` will hand out, in order
   ircZombie : Bool := false            -- `irc.zombie` (`Irc.die()` was called)
+  pingDue : Bool := false              -- the Irc's ping timed out: the next `takeMsg()` that finds the queues empty reconnects
   fed : List C05.Msg := []             -- every `irc.feedMsg(m)` since the last `Irc.reset()`
   allFed : List C05.Msg := []          -- every `irc.feedMsg(m)` ever
   -- scripted socket
@@ -205,7 +206,7 @@ and queues the registration messages; with `wait` the new connection is only sch
 def reconnect (env : Env) (wait : Bool) (w : World) : World :=
   let q : List Str := if w.ircZombie then [] else env.onReset
   let w1 : World :=
-    { w with reconnectAt := false, reconnectDue := false, inbuffer := [], outbuffer := [],
+    { w with reconnectAt := false, reconnectDue := false, inbuffer := [], outbuffer := [], pingDue := false,
              connected := false, sockClosed := (w.connected || w.sockClosed),
              pastWires := (if w.connected then w.pastWires ++ [w.wire] else w.pastWires), wire := [],
              queue := q, queued := q, taken := [], fed := [], rx := [] }
@@ -238,7 +239,9 @@ def reallyDie (w : World) : World := { w with sockClosed := true, removed := tru
 /-- `if not self.zombie:` the `takeMsg()` loop -/
 def sendTake (w : World) : World := if w.zombie then w else takeAll w
 
-/-- `if self.outbuffer:` one `send()` -/
+/-- `if self.outbuffer and self.connected:` one `send()`.  (`connected` holds here: the only way the
+`takeMsg` loop can drop the connection is the in-loop reconnect, modelled in `sendIfMsgs`, after which
+the buffer is empty and the connection is up again.) -/
 def sendFlush (w : World) : World := if w.outbuffer = [] then w else doSend w
 
 /-- `if self.zombie and not self.outbuffer: self._reallyDie()` -/
@@ -248,12 +251,17 @@ def sendFinish (w : World) : World := if w.zombie && w.outbuffer = [] then reall
 def sendPlain (w : World) : World :=
   if !w.connected then w else sendFinish (sendFlush (sendTake w))
 
-/-- … where an exception escaping `irc.takeMsg()` aborts it (and `run()`) -/
+/-- … where an exception escaping `irc.takeMsg()` aborts it (and `run()`), and where `takeMsg` itself
+may reconnect: with a ping outstanding past its interval, the call that finds both queues empty
+feeds an ERROR and calls `driver.reconnect()`.  Since fix 67d65e0 every message is appended to the
+out-buffer as it is taken, so what was taken earlier in this loop is emptied with the buffer — it
+belonged to the connection that is dropped — and nothing is sent in this call (the buffer is empty;
+the registration messages of the new connection are taken by the next call). -/
 def sendIfMsgs (env : Env) (w : World) : World :=
   if w.connected && !w.zombie then
     match env.takeEscapes w.queue with
     | some e => { w with crashed := some e }
-    | none => sendPlain w
+    | none => if w.pingDue then reconnect env false w else sendPlain w
   else sendPlain w
 
 /-! ### read side -/
@@ -342,6 +350,7 @@ inductive Op where
   | scriptRecv (r : RecvRes)    -- environment: outcome of a future `recv()`
   | ircDie                      -- `Irc.die()` (connected Irc: becomes a zombie)
   | tick                        -- time passes: a scheduled reconnect becomes due
+  | pingTimeout                 -- time passes: the Irc's outstanding PING was not answered in time
   | loop                        -- one pass of `drivers.run()`
 deriving DecidableEq, Repr
 
@@ -353,6 +362,7 @@ def step (env : Env) (w : World) : Op → World
   | .scriptRecv r => { w with recvScript := w.recvScript ++ [r] }
   | .ircDie => { w with ircZombie := true }
   | .tick => { w with reconnectDue := true }
+  | .pingTimeout => { w with pingDue := true }
   | .loop => loop env w
 
 def runOps (env : Env) (w : World) (ops : List Op) : World := ops.foldl (step env) w
